@@ -136,7 +136,9 @@ def classify(exc):
     if exc is None:
         return 'ok'
     n = type(exc).__name__
-    if n == 'AppendDataError':
+    if n == 'AppendDataError' or isinstance(exc, (KeyboardInterrupt, IterInterrupt)):
+        # the outcome class of a failed append is "the call raises": a BaseException thrown
+        # by the iterable may reach the caller unchanged
         return 'AppendDataError'
     for cls, name in ((KeyError, 'KeyError'), (IndexError, 'IndexError'), (TypeError, 'TypeError'),
                       (OSError, 'OSError'), (ValueError, 'ValueError')):
@@ -147,6 +149,13 @@ def classify(exc):
 
 class IterFault(Exception):
     pass
+
+
+class IterInterrupt(BaseException):
+    """an iterable may also fail with something that is not an Exception (Ctrl-C, SystemExit, ...)"""
+
+
+RAISED = (IterFault, KeyboardInterrupt, IterInterrupt)
 
 
 class FsizeFault:
@@ -275,7 +284,7 @@ class Session:
             getattr(self, 'do_' + name)(*args)
         except Skip:
             raise
-        except Exception as e:   # noqa
+        except (Exception, KeyboardInterrupt, IterInterrupt) as e:   # noqa
             # keep no reference to the exception object: its traceback would keep
             # frames (and whatever they hold open) alive into the next call
             return classify(e), repr(e)[:300]
@@ -335,7 +344,9 @@ class Session:
             def gen():
                 for c in chunks:
                     yield c
-                raise IterFault('iterable raises')
+                raise exc_class('iterable raises')
+            self.nraise = getattr(self, 'nraise', len(chunks) + self.cfg.rowbytes) + 1
+            exc_class = RAISED[self.nraise % 3]
             a.iterappend(gen())
         elif kind in ('shape', 'rank', 'conv'):
             a.iterappend(self.cfg.iterable(chunks + [self.bad_item(kind)]))
